@@ -373,7 +373,22 @@ pub fn run(seed: u64, n: usize, out: &mut Out, with_mistakes: bool) {
                 }
             } else {
                 let k = if with_mistakes { r.range(1, 4) } else { 0 };
-                let (items, inj) = compose(&mut r, &info, k);
+                let (mut items, mut inj) = compose(&mut r, &info, k);
+                // a name the receiver declares but cannot be addressed by (a skipped or flattened field's
+                // own name): an unknown name like any other
+                if with_mistakes && r.chance(1, 5) {
+                    let hidden: Vec<&String> = cands
+                        .iter()
+                        .filter(|c| !info.fields.iter().any(|f| f.name == c.as_str()))
+                        .filter(|c| !c.is_empty() && c.chars().all(|ch| ch.is_ascii_alphanumeric() || ch == '_') && !c.chars().next().unwrap().is_ascii_digit())
+                        .collect();
+                    if !hidden.is_empty() {
+                        let pos = r.below(items.len() + 1);
+                        items.insert(pos, format!("{} = 1", r.pick(&hidden)));
+                        inj += 1;
+                        out.stat("hidden_names_as_items", 1);
+                    }
+                }
                 (format!("x({})", items.join(", ")), inj)
             };
             let m = match parse_meta_pub(&src) {
